@@ -47,6 +47,27 @@ class Mutator(ast.NodeTransformer):
             n.args = [ast.Starred(value=a, ctx=ast.Load()) if i == 0 else a for i, a in enumerate(n.args)]
         return n
 
+    STATIC = ["sys.platform == 'linux'", "sys.platform == 'win32'", "sys.version_info >= (3, 9)", "sys.version_info < (3, 0)", "TYPE_CHECKING", "not TYPE_CHECKING", "True", "False"]
+
+    def visit_If(self, n):
+        """Branch shapes mypy resolves statically: the dead part becomes unreachable / an empty else."""
+        self.generic_visit(n)
+        if self.rng.random() > self.rate:
+            return n
+        static = ast.parse(self.rng.choice(self.STATIC), mode="eval").body
+        k = self.rng.randrange(5)
+        if k == 0:
+            n.test = static
+        elif k == 1:                       # elif <static> without else
+            n.orelse = [ast.If(test=static, body=n.orelse or [ast.Pass()], orelse=[])]
+        elif k == 2:                       # the whole statement inside the else part of another if
+            return ast.If(test=ast.Name(id="ARGS", ctx=ast.Load()), body=[ast.Pass()], orelse=[ast.If(test=static, body=[n], orelse=[])])
+        elif k == 3:
+            n.orelse = []
+        else:                              # static guard in front, original as elif
+            return ast.If(test=static, body=[ast.Pass()], orelse=[n])
+        return n
+
     def visit_Slice(self, n):
         self.generic_visit(n)
         if self.rng.random() < self.rate:
@@ -94,7 +115,7 @@ def mutants(ctx: Ctx, outdir: Path, n: int) -> list[str]:
         try:
             tree = ast.parse(Path(seed).read_text())
             tree = ast.fix_missing_locations(Mutator(ctx.rng).visit(tree))
-            src = "ARGS = []\nKW = {}\n" + ast.unparse(tree) + "\n"
+            src = "import sys\nfrom typing import TYPE_CHECKING\nARGS = []\nKW = {}\n" + ast.unparse(tree) + "\n"
             compile(src, "m", "exec")
         except Exception:  # noqa: BLE001
             continue
@@ -205,7 +226,7 @@ def run(ctx: Ctx) -> None:
                 ctx.report(f"crash:{name}:{classify(r)}", f"scenario {name}: exit {rc}, " + (err.strip().splitlines() or ["?"])[-1][:160],
                            {"cmd": ["python", "-m", "refurb", *args], "rc": rc, "stderr": err[-1500:], "stdout": out[-500:]})
         # 2. batched in-process runs (bisected on failure)
-        kitchen = [str(VERIF / "corpus/C04/kitchen.py"), str(VERIF / "corpus/C03/typing_states.py")]
+        kitchen = [str(VERIF / "corpus/C04/kitchen.py"), str(VERIF / "corpus/C03/typing_states.py"), str(VERIF / "corpus/C03/static_conditions.py")]
         kitchen += sorted(glob.glob(str(VERIF / "corpus/C03/regress_*.py")))   # minimised earlier failures run first
         data = sorted(glob.glob(str(REPO / "test" / "data*" / "*.py")))
         muts = mutants(ctx, td, ctx.budget(60, 1500))
